@@ -121,7 +121,8 @@ class Basis(Family):
             ders = helpers.basis_function_ders(p, U, span, u, order)
             done = [helpers.basis_function_ders_one(p, U, i, u, order) for i in range(span - p, span + 1)]
             bfs = helpers.basis_functions(p, U, [span, span], [u, u])
-            return {"bf": bf, "one": one, "all": al, "ders": ders, "ders_one": done, "bfs": bfs}
+            dersl = helpers.basis_functions_ders(p, U, [span, span], [u, u], order)
+            return {"bf": bf, "one": one, "all": al, "ders": ders, "ders_one": done, "bfs": bfs, "dersl": dersl}
         return call(f)
 
     def coq(self, c, out):
@@ -203,6 +204,8 @@ class Basis(Family):
                         return "ders-one: basis_function_ders_one(i=%d)[%d] = %r but ders gives %r" % (span - p + j, k, col[k], ders[k][j])
         if o["bfs"] != [bf, bf]:
             return "basis_functions: list variant differs"
+        if o["dersl"] != [ders, ders]:
+            return "basis_functions_ders: list variant differs from basis_function_ders"
         return None
 
     def nontrivial(self, c, out):
